@@ -73,6 +73,18 @@ def atan2_(x_num, y_num):
     return math.atan2(y_num, x_num)
 
 
+def _to_multiple(number, significance, rounder):
+    """The multiple of significance next to number, in the direction of rounder
+
+    A number which is a multiple already, but for the last bits of the
+    quotient (0.3 / 0.1 is 2.9999999999999996), is that multiple
+    """
+    quotient = number / significance
+    if math.isclose(quotient, round(quotient), rel_tol=1e-14, abs_tol=0):
+        return number
+    return significance * rounder(quotient)
+
+
 @excel_math_func
 def ceiling(number, significance):
     # Excel reference: https://support.microsoft.com/en-us/office/
@@ -84,9 +96,9 @@ def ceiling(number, significance):
         return 0
 
     if number < 0 < significance:
-        return significance * int(number / significance)
+        return _to_multiple(number, significance, int)
     else:
-        return significance * math.ceil(number / significance)
+        return _to_multiple(number, significance, math.ceil)
 
 
 @excel_math_func
@@ -99,7 +111,7 @@ def ceiling_math(number, significance=1, mode=0):
     significance = abs(significance)
     if mode and number < 0:
         significance = -significance
-    return significance * math.ceil(number / significance)
+    return _to_multiple(number, significance, math.ceil)
 
 
 @excel_math_func
@@ -110,7 +122,7 @@ def ceiling_precise(number, significance=1):
         return 0
 
     significance = abs(significance)
-    return significance * math.ceil(number / significance)
+    return _to_multiple(number, significance, math.ceil)
 
 
 def conditional_format_ids(*args):
@@ -169,7 +181,7 @@ def floor(number, significance):
     if significance == 0:
         return DIV0
 
-    return significance * math.floor(number / significance)
+    return _to_multiple(number, significance, math.floor)
 
 
 @excel_math_func
@@ -182,7 +194,7 @@ def floor_math(number, significance=1, mode=0):
     significance = abs(significance)
     if mode and number < 0:
         significance = -significance
-    return significance * math.floor(number / significance)
+    return _to_multiple(number, significance, math.floor)
 
 
 @excel_math_func
@@ -193,7 +205,7 @@ def floor_precise(number, significance=1):
         return 0
 
     significance = abs(significance)
-    return significance * math.floor(number / significance)
+    return _to_multiple(number, significance, math.floor)
 
 
 @excel_math_func
